@@ -65,29 +65,6 @@ theorem newCipher_len (key : Bytes) :
 
 -- operation histories on one cipher object --------------------------------------------------------
 
-/-- one call on the object -/
-inductive Op where
-  | enc (dst src : Bytes)
-  | dec (dst src : Bytes)
-
-def Op.src : Op → Bytes
-  | .enc _ s => s
-  | .dec _ s => s
-def Op.dst : Op → Bytes
-  | .enc d _ => d
-  | .dec d _ => d
-
-/-- run a history; results are the contents of `dst` after each call (or the fault) -/
-def run : Cipher → List Op → List (Except Fault Bytes)
-  | _, [] => []
-  | c, op :: ops =>
-    let r := match op with
-      | .enc d s => c.encrypt d s
-      | .dec d s => c.decrypt d s
-    match r with
-    | .ok (c', out) => .ok out :: run c' ops
-    | .error f => .error f :: run c ops
-
 /-- what the standard says the call returns into a 16-byte `dst` -/
 def specOut (key : Bytes) : Op → Except Fault Bytes
   | .enc d s => if s.length < 16 then .error (.panic "index out of range")
